@@ -1,6 +1,5 @@
-(* CacheProofs3.v — concrete histories: witnesses of the class the property does not survive (KC3: two
-   transform configurations whose id strings coincide), regression examples for the repaired classes
-   (pre-epoch mtimes, --in-place), and non-vacuity examples.
+(* CacheProofs3.v — concrete histories: regression examples for the repaired classes (pre-epoch mtimes,
+   --in-place, transform ids that used to coincide), the rounding residue, and non-vacuity examples.
    Everything here is closed: a toy injective hash and small transforms, evaluated by vm_compute. *)
 From FV Require Import Base CacheModel CacheProofs CacheProofs2.
 Open Scope N_scope.
@@ -9,6 +8,17 @@ Definition Hx (a : N) (d : bytes) : hashv := a :: d.                          (*
 Definition Tid (c : tconf) (d : bytes) : option bytes := Some d.
 Definition Tip (c : tconf) (d : bytes) : option bytes := if t_inplace c then Some d else Some [].
 Definition Thead (c : tconf) (d : bytes) : option bytes := Some (ntake 1 d).
+
+(* decidable NUL-freeness of the command strings of a list of configurations *)
+Definition nul_free_b (cs : list (N * option tconf)) : bool :=
+  forallb (fun x => match snd x with Some c => negb (existsb (N.eqb 0) (t_cmd c)) | None => true end) cs.
+Lemma nul_free_b_sound cs : nul_free_b cs = true -> nul_free cs.
+Proof.
+  unfold nul_free_b, nul_free, nul_free_cmd. intros Hb a c Hin X. rewrite forallb_forall in Hb.
+  specialize (Hb _ Hin). cbn [snd] in Hb. apply negb_true_iff in Hb.
+  assert (Y : existsb (N.eqb 0) (t_cmd c) = true) by (apply existsb_exists; exists 0; split; [exact X|reflexivity]).
+  congruence.
+Qed.
 
 Definition ask (p pos len : N) : prog unit := Call (mkC p pos len IoOk) (fun _ => Ret tt).
 Definition probe (p pos len : N) : prog result := Call (mkC p pos len IoOk) (fun r => Ret r).
@@ -41,55 +51,49 @@ Definition hK2 : list event :=
 
 Lemma ex_inplace_switch :
   tree_of 0 (Some (sedc true)) <> tree_of 0 (Some (sedc false)) /\
-  no_alias ((0, Some (sedc true)) :: confs hK2) /\
+  nul_free ((0, Some (sedc true)) :: confs hK2) /\
   Tip (sedc true) [97; 98] <> Tip (sedc false) [97; 98] /\
   cached_answer Hx Tip hK2 0 (Some (sedc true)) (probe 1 0 2) = plain_answer Hx Tip hK2 0 (Some (sedc true)) (probe 1 0 2).
 Proof.
   split; [vm_compute; intros E; discriminate E|].
-  split; [apply alias_b_sound; vm_compute; reflexivity|].
+  split; [apply nul_free_b_sound; vm_compute; reflexivity|].
   split; [vm_compute; intros E; discriminate E|].
   vm_compute. reflexivity.
 Qed.
 
-(* ---- KC3: the transform id is a plain concatenation, so two different configurations can get one tree ---- *)
-(* (a) an id that reads "<none>" shares the tree of "no transform" (needs command "<none>" with copy = true and
-       no --in-place: not constructible through the command line, where copy = "$IN occurs in the command") *)
+(* ---- the former KC3 (repaired, ea68843): the parts of the id are separated by NUL ---- *)
+(* (a) a command that reads "<none>" no longer shares the tree of "no transform" *)
 Definition nonec : tconf := mkT none_str false true.
 Definition hK3 : list event :=
   [EvEdit (ECreate 1 id7 [97; 98] 5000000%Z); EvRun 0 None (ask 1 0 2)].
 
-Lemma KC3_witness :
-  mtime_determines (moments Hx Thead ([], empty_world) hK3) /\ preepoch_whole_ms (moments Hx Thead ([], empty_world) hK3) /\
-  nofail (probe 1 0 2) /\
-  tree_of 0 (Some nonec) = tree_of 0 None /\
-  cached_answer Hx Thead hK3 0 (Some nonec) (probe 1 0 2) <> plain_answer Hx Thead hK3 0 (Some nonec) (probe 1 0 2).
+Lemma ex_none_named :
+  tree_of 0 (Some nonec) <> tree_of 0 None /\
+  nul_free ((0, Some nonec) :: confs hK3) /\
+  cached_answer Hx Thead hK3 0 (Some nonec) (probe 1 0 2) = plain_answer Hx Thead hK3 0 (Some nonec) (probe 1 0 2).
 Proof.
-  split; [apply mtime_determines_b_sound; vm_compute; reflexivity|].
-  split; [apply preepoch_fraction_b_sound; vm_compute; reflexivity|].
-  split; [cbn [probe nofail c_io]; auto|].
-  split; [reflexivity|].
-  vm_compute. intros E. discriminate E.
+  split; [vm_compute; intros E; discriminate E|].
+  split; [apply nul_free_b_sound; vm_compute; reflexivity|].
+  vm_compute. reflexivity.
 Qed.
 
-(* (b) a command that ends in the text " --in-place" (passed to the program as an argument) and the shorter
-       command run with fclones' --in-place: reachable through the command line *)
-Definition cmdx : list N := [115; 32; 36; 73; 78].                 (* "s $IN" *)
-Definition cA : tconf := mkT (cmdx ++ inplace_str) false true.    (* --transform 's $IN --in-place' *)
-Definition cB : tconf := mkT cmdx true true.                      (* --transform 's $IN' --in-place *)
+(* (b) a command ending in the text " --in-place" vs the shorter command run with fclones' --in-place *)
+Definition cmdx : list N := [115; 32; 36; 73; 78].                         (* "s $IN" *)
+Definition cA : tconf := mkT (cmdx ++ 32 :: inplace_str) false true.      (* --transform 's $IN --in-place' *)
+Definition cB : tconf := mkT cmdx true true.                              (* --transform 's $IN' --in-place *)
 Definition hK3b : list event :=
   [EvEdit (ECreate 1 id7 [97; 98] 5000000%Z); EvRun 0 (Some cA) (ask 1 0 2)].
 
-Lemma KC3b_witness :
-  mtime_determines (moments Hx Tip ([], empty_world) hK3b) /\ preepoch_whole_ms (moments Hx Tip ([], empty_world) hK3b) /\
-  nofail (probe 1 0 2) /\
-  (cA <> cB /\ tree_of 0 (Some cA) = tree_of 0 (Some cB) /\ Tip cA [97; 98] <> Tip cB [97; 98]) /\
-  cached_answer Hx Tip hK3b 0 (Some cB) (probe 1 0 2) <> plain_answer Hx Tip hK3b 0 (Some cB) (probe 1 0 2).
+Lemma ex_flag_text :
+  tree_of 0 (Some cA) <> tree_of 0 (Some cB) /\
+  nul_free ((0, Some cB) :: confs hK3b) /\
+  Tip cA [97; 98] <> Tip cB [97; 98] /\
+  cached_answer Hx Tip hK3b 0 (Some cB) (probe 1 0 2) = plain_answer Hx Tip hK3b 0 (Some cB) (probe 1 0 2).
 Proof.
-  split; [apply mtime_determines_b_sound; vm_compute; reflexivity|].
-  split; [apply preepoch_fraction_b_sound; vm_compute; reflexivity|].
-  split; [cbn [probe nofail c_io]; auto|].
-  split; [split; [intros E; discriminate E|split; [vm_compute; reflexivity|vm_compute; intros E; discriminate E]]|].
-  vm_compute. intros E. discriminate E.
+  split; [vm_compute; intros E; discriminate E|].
+  split; [apply nul_free_b_sound; vm_compute; reflexivity|].
+  split; [vm_compute; intros E; discriminate E|].
+  vm_compute. reflexivity.
 Qed.
 
 (* ---- the two roundings of a pre-epoch mtime: -0.7 ms and +0.7 ms are different milliseconds when rounded down
@@ -130,7 +134,7 @@ Lemma ex_rewrite_invalidated :
   cached_answer Hx Tid hRewrite 0 None (probe 1 0 3) = RHash (Hx 0 [97; 98; 100]).
 Proof.
   split; [apply stamp_determines_b_sound; vm_compute; reflexivity|].
-  split; [apply tree_faithful_of; apply alias_b_sound; vm_compute; reflexivity|].
+  split; [apply tree_faithful_nul_free; apply nul_free_b_sound; vm_compute; reflexivity|].
   split; [vm_compute; reflexivity|].
   split; [eexists; split; vm_compute; reflexivity|].
   vm_compute. reflexivity.
@@ -181,6 +185,6 @@ Lemma ex_switches :
 Proof.
   split; [apply stamp_determines_b_sound; vm_compute; reflexivity|].
   split.
-  - apply tree_faithful_of. apply alias_b_sound. vm_compute. reflexivity.
+  - apply tree_faithful_nul_free. apply nul_free_b_sound. vm_compute. reflexivity.
   - split; vm_compute; reflexivity.
 Qed.
